@@ -17,4 +17,5 @@ import (
 	_ "polycheck/props/c14"
 	_ "polycheck/props/c15"
 	_ "polycheck/props/c16"
+	_ "polycheck/props/c17"
 )
